@@ -1,5 +1,6 @@
 SPECIFICATION Spec
 CONSTANTS
   Menus <- MenusGenT
+  FixConsistency = TRUE
 INVARIANTS Emit
 CHECK_DEADLOCK FALSE
